@@ -10,6 +10,9 @@ CHECKS = {
  "C03": (True, "fault_enumeration", "reference-model monitor at attribute level: exhaustive enumeration of the property's product space (default x keyword x class x position x tagged kind, 1344 legal points + automatic-tagging sub-space) + random grammar compositions; #[rasn(tag(..))]/automatic_tags of the syn projection compared with X.680 31.2.7 / 25.3 / 29.2",
          "Every legal point of the stated product space is compiled and the emitted tag class, number, explicit marking and automatic_tags are compared with the model; random larger compositions are sampled. Attribute level only: the DER-level observation (explicit wrappers of CHOICE-typed components, delegate newtypes around CHOICE/open types) is not built in this revision and those markings are not judged.",
          "Trusted: oracle.rs::check_tag (30 lines of X.680 31.2.7), syn projection. Two genuine defects are pinned by the repository's own tests and listed as known findings (no TAGS clause = IMPLICIT; SEQUENCE OF element tag dropped).", "DESIGN.md §4 C03"),
+ "C04": (True, "exploration", "reference-model monitor: subtype expressions built by the harness (exact interval-set semantics + X.691 10.3 PER-visible fold kept as ground truth) compiled by the real compiler in 13 contexts; the emitted value()/size()/Fixed*String<n> of the syn projection compared with the model's hull, containment of the exact permitted set, and the extensible flag",
+         "Exhaustive for expressions with <= 2 atoms over a 5-point endpoint alphabet in three contexts, seeded random for 3..4 atoms / 7-point alphabet / serial constraints / value references / named numbers / SIZE on six type kinds. Four root-cause classes of genuine folding defects of the pinned tree are known findings (>= 2 set operators, serial-after-union, own named numbers, marker after EXCEPT); every other deviation is reported with its exact expression shape.",
+         "Trusted: c04.rs (Expr::full / per_visible, 60 lines) over iv.rs (brute-force tested). Parenthesised sub-expressions and open ranges are rejected by the compiler and are not claims. The known-finding classes are defined on the input expression only, so they also mask other defects that need >= 2 set operators to manifest.", "DESIGN.md §4 C04"),
  "C05": (True, "fault_enumeration", "reference-model monitor: exhaustive enumeration of extensible shapes (kind x root size x every addition/group sequence x nesting x EXTENSIBILITY IMPLIED) + random grammar sets; non_exhaustive / extension_addition / extension_addition_group attributes and group structs of the syn projection compared with the model",
          "Every shape of the bounded space is compiled and judged: extensible iff marker or EXTENSIBILITY IMPLIED; exactly the additions marked; each [[ ]] group one optional extension_addition_group member whose hoisted struct has exactly the grouped components in order. Exhaustive within the stated bounds, sampled beyond.",
          "Trusted: oracle.rs, syn projection. For CHOICE, version brackets have no encoding effect: alternatives in brackets must appear, in order, as individual extension additions.", "DESIGN.md §4 C05"),
